@@ -8,7 +8,7 @@
    the current file content is an environment fact here (field we_from_chars; the tracker is
    C16's subject).  Line attributions in this map are AI-only: the tracker strips human lines. *)
 From Verif Require Import Base.Str.
-From Verif Require Import Gen.GenWorkLog.
+From Verif Require Import Gen.GenWorkLog Gen.GenCheckpoint.
 Open Scope N_scope.
 
 Record lattr := mkLattr { la_start : N; la_end : N; la_author : str }.
@@ -113,3 +113,34 @@ Definition write_initial_gen (removes : bool) (old : option amap) (m : amap) : o
 Definition write_initial := write_initial_gen empty_initial_write_removes_file.
 
 Definition read_initial (f : option amap) : amap := match f with Some m => m | None => [] end.
+
+(* ---- get_checkpoint_entry_for_file: what one checkpoint records for one file (decision skeleton;
+        the order of the early returns is checked against the source by Gen/GenCheckpoint.v) ---- *)
+Inductive entry_decision :=
+| NoEntry                 (* Ok(None): nothing is recorded for this file *)
+| EmptyEntry              (* human-only file: an entry without attributions (skipped by the reader) *)
+| Computed.               (* the tracker runs: make_entry_for_file *)
+
+Record cp_facts := mkCpFacts {
+  cf_human : bool;            (* kind == Human *)
+  cf_pre_commit : bool;
+  cf_prior_ai : bool;         (* the file was touched by an AI checkpoint of this working log *)
+  cf_has_initial : bool;      (* INITIAL has claims for the file *)
+  cf_from_checkpoint : bool;  (* an earlier checkpoint of this working log has an entry for the file *)
+  cf_equal : bool             (* current content == previous content (previous checkpoint's blob, else HEAD) *)
+}.
+
+Definition decide_entry (f : cp_facts) : entry_decision :=
+  let human_only := cf_human f && negb (cf_prior_ai f) && negb (cf_has_initial f) in
+  if cf_pre_commit f && human_only then NoEntry
+  else if human_only then (if cf_equal f then NoEntry else EmptyEntry)
+  else if negb (cf_from_checkpoint f) && cf_equal f && negb (cf_has_initial f) then NoEntry
+  else if cf_from_checkpoint f && cf_equal f then NoEntry
+  else Computed.
+
+Definition entry_of_decision (d : entry_decision) (file : str) (computed : wentry) : list wentry :=
+  match d with
+  | NoEntry => []
+  | EmptyEntry => [mkWentry file [] false []]
+  | Computed => [computed]
+  end.
